@@ -159,6 +159,7 @@ class RealWorld:
         self.fields = []
         self.stores = []
         self.trackers = {}
+        self.observations = []
 
     # ------------------------------------------------------------------ observation
     def snap_store(self, st):
@@ -255,6 +256,13 @@ class RealWorld:
                 return self._bad(mop)
             st = MemoryStorage.from_collection([S[i] for i in op["sids"]], label=op.get("label"),
                                                rtol=op["rtol"], atol=op["atol"])
+            if len({len(S[i].times) for i in op["sids"]}) > 1:
+                # numpy broadcast the time lists of storages with different numbers of frames: the result
+                # is ragged (frames of different shapes, some unreadable) - outside the model, discarded
+                shapes = sorted({tuple(d.shape) for d in st.data})
+                self.observations.append(f"from_collection accepted storages with {sorted(len(S[i].times) for i in op['sids'])} "
+                                         f"frames; result frame shapes {shapes}")
+                return self._bad(mop)
             S.append(st)
             return None, {"store": len(S) - 1}, mop
         # everything else addresses a storage
